@@ -203,6 +203,18 @@ def run(ctx: Ctx):
                             kws = {k.args[0]: k.args[1] for k in means[0].args[2:] if k.op == "kw"}
                             okc = "dim" in kws and kws["dim"].op == "param" and vg.is_const(kws.get("keepdim", vg.const(False)), True) and means[0].args[0].op == "param" and means[0].args[0].args[0] == "reward"
                         why = f"mean(-(reward - mean(reward, dim, keepdim=True)) * ll): terms {p.show(2)}"
+        # the early `return 0` is taken exactly when fewer than two replicas exist on `dim`
+        zero = [c for c, v in fr.returns if vg.is_const(v, 0)]
+        okz = not zero
+        for c in zero:
+            r_ = nf.cmpnf(c) if isinstance(c, vg.S) else None
+            okz = False
+            if r_ is not None:
+                d_, op_ = r_
+                n_ = vg.mk("sub", vg.mk("attr", vg.mk("param", "reward"), "shape"), vg.mk("param", "dim"))
+                # integer n: n < 2  <=>  2 - n > 0  <=>  1 - n >= 0
+                okz = (op_ == ">0" and d_ == nf.Poly.const(2) - nf.poly(n_)) or (op_ == ">=0" and d_ == nf.Poly.const(1) - nf.poly(n_))
+        ctx.ob("C16.b", f"symnco.{nm}:degenerate-guard", okz, fi.loc, "returns 0 only when reward.shape[dim] < 2 (no shared baseline exists)", construct=f"{nm}:guard")
         ctx.ob("C16.b", f"symnco.{nm}", ok, fi.loc, why, construct=f"{nm}:formula")
         ctx.ob("C16.c", f"symnco.{nm}:shared-mean", okc, fi.loc, "baseline mean names its dim and keeps it (keepdim=True)", construct=f"{nm}:keepdim")
     # SharedBaseline
@@ -253,6 +265,23 @@ def run(ctx: Ctx):
     ok_adv = not ta and len(pa.monos()) == 2 and sorted(c for c, _ in pa.monos()) == [-1, 1]
     ctx.ob("C16.a", "PPO.shared_step:advantage-detached", ok_adv, pp.loc,
            f"adv = {pa.show(3)}" + ("" if not ta else f" -- depends on {vg.show(ta[0], 3)} without detach"), construct="PPO.shared_step:advantage")
+    # optional normalisation: (adv - mean(adv)) / (std(adv) + eps), eps > 0, applied iff ppo_cfg['normalize_adv']
+    ok_n, why_n = True, "no normalisation branch"
+    if adv.op in ("phi", "ifexp"):
+        nrm = adv.args[1]
+        raw_p = nf.poly(adv_raw)
+        pn = nf.poly(nrm)
+        recs = [a for a in pn.atoms() if a.op == "recip"]
+        ok_n, why_n = False, f"normalised advantage {pn.show(2)[:120]}"
+        if len(recs) == 1:
+            den = nf.poly(recs[0].args[0]).monos()
+            stds = [fs for c, fs in den if c == 1 and len(fs) == 1 and fs[0][0].op == "meth" and fs[0][0].args[1] == "std" and nf.poly(fs[0][0].args[0]) == raw_p and len(fs[0][0].args) == 2]
+            eps = [c for c, fs in den if not fs]
+            means = [a for a in pn.atoms() if a.op == "meth" and a.args[1] == "mean" and nf.poly(a.args[0]) == raw_p and len(a.args) == 2]
+            if len(den) == 2 and len(stds) == 1 and len(eps) == 1 and eps[0] > 0 and len(means) == 1:
+                ok_n = pn == (raw_p - nf.Poly.atom(means[0])) * nf.Poly.atom(recs[0])
+        ok_n = ok_n and "normalize_adv" in vg.show(adv.args[0], 4) and adv.args[0].op not in ("not",)
+    ctx.ob("C16.b", "PPO.shared_step:normalised-advantage", ok_n, pp.loc, "adv' = (adv - adv.mean()) / (adv.std() + eps), eps > 0, under ppo_cfg['normalize_adv']: " + why_n, construct="PPO.shared_step:normalise")
     ok_s, why_s = False, "surrogate structure not recognised"
     ps = nf.poly(sl)
     mon = ps.monos()
